@@ -251,7 +251,7 @@ ADV = [
 ]
 
 
-def table_cases(ctx, round, n_random, with_header=True, maxrows=None):
+def table_cases(ctx, round, n_random, with_header=True, maxrows=None, layouts=True):
     r = ctx.rng
     cs = []
     maxrows = maxrows or ctx.n(6, 12)
@@ -272,14 +272,25 @@ def table_cases(ctx, round, n_random, with_header=True, maxrows=None):
                 hdr = gen_header(r, r.choice(["simple", "END", "SIZE"])) if with_header else None
                 cs.append({"dtype": fields, "rows": gen_rows(r, fields, r.choice([2, 3])), "header": repr(hdr) if with_header else None,
                            "family": "grid:%s" % b[0], "adv": False})
+        if layouts:
+            # "any structured array": every memory layout numpy can hand to the writer, same logical rows
+            for lay in LAYOUTS[1:]:
+                for nrows in (4, 6):
+                    fields = gen_dtype(r, maxrow=40)
+                    hdr = gen_header(r, "simple") if with_header else None
+                    cs.append({"dtype": fields, "rows": gen_rows(r, fields, nrows), "header": repr(hdr) if with_header else None,
+                               "family": "layout:" + lay, "adv": True, "layout": lay})
     fams = ["none", "empty", "simple", "simple", "nested", "END", "END", "SIZE", "long", "reserved"]
     for _ in range(n_random):
         fields = gen_dtype(r)
         nrows = r.choice([1, 1, 2, 2, 3, 4, 5, 6, r.randrange(1, maxrows + 1)])
         fam = r.choice(fams) if with_header else "none"
         hdr = gen_header(r, fam)
-        cs.append({"dtype": fields, "rows": gen_rows(r, fields, nrows), "header": repr(hdr) if with_header else None,
-                   "family": "random:" + fam if with_header else "random", "adv": False})
+        c = {"dtype": fields, "rows": gen_rows(r, fields, nrows), "header": repr(hdr) if with_header else None,
+             "family": "random:" + fam if with_header else "random", "adv": False}
+        if layouts and r.random() < 0.3:
+            c["layout"] = r.choice(LAYOUTS[1:])
+        cs.append(c)
     if round == 0 and not ctx.quick():
         for _ in range(6):          # a few long tables (up to 200 rows of a narrow dtype)
             fields = gen_dtype(r, maxrow=24)
@@ -315,12 +326,66 @@ def fields_of(dt):
     return out
 
 
-def make_data(case):
+LAYOUTS = ["contig", "step2", "reversed", "offset", "transposed", "2d", "recarray", "step3-offset"]
+
+
+def _pq(n):
+    """n = p * q with p, q >= 2 when possible (else (n, 1))"""
+    for p in (2, 3, 5, 7):
+        if n % p == 0 and n // p >= 2:
+            return p, n // p
+    return n, 1
+
+
+def build_array(case):
+    """(array handed to the real writer, base buffer it is a view of).  The LOGICAL rows of the array
+    (C order) are case['rows'] for every layout; what differs is how numpy holds them in memory:
+    a strided slice of a larger table, a reversed view, a slice that does not start at the buffer's
+    first byte, a transposed 2-d array, a C-contiguous 2-d array, a recarray view."""
     import numpy as np
     dt = np_dtype_of(case["dtype"])
-    buf = b"".join(bytes.fromhex(x) for x in case["rows"])
-    assert dt.itemsize * len(case["rows"]) == len(buf), "generator: row bytes do not fit the dtype"
-    return np.frombuffer(buf, dtype=dt).copy()
+    rows = [bytes.fromhex(x) for x in case["rows"]]
+    n = len(rows)
+    assert all(len(r) == dt.itemsize for r in rows), "generator: row bytes do not fit the dtype"
+    layout = case.get("layout", "contig")
+    filler = [bytes((b ^ 0xA5) for b in r) for r in rows]
+
+    def arr(rs):
+        return np.frombuffer(b"".join(rs), dtype=dt).copy()
+    if layout == "contig":
+        base = arr(rows)
+        return base, base
+    if layout == "step2":
+        base = arr([x for r, f in zip(rows, filler) for x in (r, f)])
+        return base[::2], base
+    if layout == "step3-offset":
+        base = arr([x for r, f in zip(rows, filler) for x in (f, r, f)])
+        return base[1::3], base
+    if layout == "reversed":
+        base = arr(rows[::-1])
+        return base[::-1], base
+    if layout == "offset":
+        base = arr([filler[0]] + rows + [filler[-1]])
+        return base[1:n + 1], base
+    if layout == "transposed":
+        p, q = _pq(n)
+        base = arr([rows[i * q + j] for j in range(q) for i in range(p)]).reshape(q, p)
+        return base.T, base
+    if layout == "2d":
+        p, q = _pq(n)
+        base = arr(rows).reshape(p, q)
+        return base, base
+    if layout == "recarray":
+        base = arr(rows)
+        return base.view(np.recarray), base
+    raise AssertionError(layout)
+
+
+def make_data(case):
+    import numpy as np
+    data, _ = build_array(case)
+    assert np.ascontiguousarray(data).tobytes() == b"".join(bytes.fromhex(x) for x in case["rows"]), "generator: layout"
+    return data
 
 
 def rows_of(arr):
